@@ -105,7 +105,9 @@ func enumerate(tier string, seed uint64) []shape {
 		add("field", e, family(e), 2)
 	}
 	// depth-3 field shapes, sampled from VERIF_SEED
-	r := &rng{s: seed*7919 + 17}
+	r := &rng{s: (seed + 0x632BE59BD9B4E019) * 0xFF51AFD7ED558CCD}
+	r.next()
+	r.next()
 	n3 := 40
 	if tier == "thorough" {
 		n3 = 300
